@@ -182,7 +182,7 @@ class PseudotrajCheck(Check):
         if rng.random() < 0.35:
             return {"source": "repo", "file": rng.choice(REPO_MOLECULES)}
         kind = rng.choice(["single", "linear", "planar", "generic", "generic"])
-        n = rng.randint(2, 12)
+        n = rng.randint(2, 12) if rng.random() < 0.9 else rng.randint(13, 40)
         return {"source": "gen", "fmt": rng.choice(["gro", "xyz", "pdb"]), "kind": kind,
                 "atoms": gen_molecule(rng, kind, n, dummy_ok=True)}
 
@@ -228,6 +228,9 @@ class PseudotrajCheck(Check):
 
     def generate(self, rng, tier):
         mol1, mol2 = self._gen_molspec(rng), self._gen_molspec(rng)
+        if rng.random() < 0.06:
+            mol1 = dict(mol2)
+            mol1["same_object"] = True  # the very same universe object handed in as molecule 1 and molecule 2
         if rng.random() < 0.12:
             # the workflow's rule run_pt: grid file -> PtWriter -> trajectory file(s) -> a reader in another stage
             rows = self._gen_rows(rng, tier)
@@ -359,6 +362,9 @@ class PseudotrajCheck(Check):
                 u1 = OneMoleculeReader(molecule_path(sc["mol1"], d, "m1")).get_molecule()
             with lib_call("OneMoleculeReader(molecule 2)"):
                 u2 = OneMoleculeReader(molecule_path(sc["mol2"], d, "m2")).get_molecule()
+            if sc["mol1"].get("same_object"):
+                u1 = u2
+                probes["same_universe_as_both_molecules"] = 1
             ref1 = np.array(u1.atoms.positions, dtype=float)
             ref2 = np.array(u2.atoms.positions, dtype=float)
             m1 = np.array(u1.atoms.masses, dtype=float)
@@ -674,7 +680,7 @@ class AssignmentCheck(Check):
                  "[0.2, 0.25, 0.5]": [2, 2.5, 5]}[t]
         rmax = radii[-1] + (radii[-1] - radii[-2]) / 2
         mode = rng.choice(["walk", "walk", "iid", "mixed"])
-        n = rng.choice([20, 60, 150, rng.randint(20, 400 if tier == "quick" else 600)])
+        n = rng.choice([20, 60, 150, rng.randint(20, 400 if tier == "quick" else 600), rng.choice([1, 2, 3, 5])])
         frames = []
         q = random_unit_quaternion(rng)
         p = [rng.uniform(-1, 1) * radii[0] for _ in range(3)]
@@ -698,7 +704,8 @@ class AssignmentCheck(Check):
             frames.append([*p, *q])
         shift = [0.0, 0.0, 0.0] if rng.random() < 0.8 else [rng.uniform(-5, 5) for _ in range(3)]
         stop = None if rng.random() < 0.8 else rng.choice([1, n // 2 or 1, n - 1 or 1, n, n, rng.randint(1, n)])
-        return {"kind": "walk", **common, "mode": mode, "shift": shift, "stop": stop, "ops": frames}
+        return {"kind": "walk", **common, "mode": mode, "shift": shift, "stop": stop,
+                "ask_twice": rng.random() < 0.12, "ops": frames}
 
     def execute(self, sc):
         import molgri.molecules.transitions as tr
@@ -770,6 +777,14 @@ class AssignmentCheck(Check):
                 at = tr.AssignmentTool(full_array, traj, u2, stop=stop, include_outliers=sc["include_outliers"],
                                        cartesian_grid=sc["cartesian_flag"])
                 got = np.asarray(at.get_full_assignments(), dtype=float)
+                if sc.get("ask_twice"):
+                    again = np.asarray(at.get_full_assignments(), dtype=float)
+            if sc.get("ask_twice"):
+                probes["asked_twice"] = 1
+                if again.shape != got.shape or not np.array_equal(np.nan_to_num(again, nan=-1.0),
+                                                                  np.nan_to_num(got, nan=-1.0)):
+                    raise Violation("assignment", "a second get_full_assignments() on the same tool gives another "
+                                                  "answer than the first")
             n_expected = len(frames) if stop is None else min(stop, len(frames))
             if got.ndim != 1:
                 raise Violation("assignment-length", f"assignments have shape {got.shape}")
